@@ -368,7 +368,6 @@ impl MqttState {
                 "PubAck Pkid = {:?}, reason: {:?}",
                 puback.pkid, puback.reason
             );
-            return Ok(None);
         }
 
         if let Some(publish) = self.check_collision(puback.pkid) {
